@@ -141,6 +141,16 @@ func MuxScenarios(thorough bool) []MuxScenario {
 	for p := 1; p <= 64; p++ {
 		sc = append(sc, MuxScenario{Name: fmt.Sprintf("periods-d3-p%d", p), Period: p, Setup: setupA, Alpha: []MOp{opDataA1, opDataARAI, opTables}, Depth: 3, Dedup: true})
 	}
+	// two streams whose PIDs differ in a single bit (every bit of the 13): whatever the Muxer keys its per-stream
+	// state with, the two never share a counter
+	for k := 0; k < 13; k++ {
+		pid2 := uint16(0x100 ^ (1 << uint(k)))
+		if isReservedPID(pid2) {
+			continue
+		}
+		sc = append(sc, MuxScenario{Name: fmt.Sprintf("pid-bit-%d-neighbour-p40", k), Period: 40, Setup: []MOp{opAddA, opPcrA, {K: "add", PID: pid2, ST: stAAC}},
+			Alpha: []MOp{opDataA1, {K: "data", PID: pid2, Len: 10}, {K: "rm", PID: pid2}, {K: "add", PID: pid2, ST: stAAC}, opTables}, Depth: 4, Dedup: true})
+	}
 	sc = append(sc, MuxScenario{Name: "fix-data1-p50", Period: 50, Setup: setupA, Alpha: []MOp{opDataA1}, Depth: -1, Dedup: true})
 	// fixpoint scenarios: restricted alphabets run to closure (unbounded depth)
 	fixDepth, readdDepth := 9, 7
